@@ -54,11 +54,12 @@ BODY = {
     "delimited": "uint8 a\n@extent 64\n",
     "service": "uint8 q\n@sealed\n---\nuint8 r\n@sealed\n",
 }
+DSDL_SUFFIXES = (".dsdl", ".uavcan")   # the front end still accepts the legacy extension
 KIND_CLASS = {"struct": "StructureType", "union": "UnionType", "delimited": "DelimitedType", "service": "ServiceType"}
 
 
-def T(full, kind="struct", body=None, deps=(), ver=(1, 0)):
-    return {"full": full, "kind": kind, "body": body if body is not None else BODY[kind], "deps": list(deps), "ver": list(ver)}
+def T(full, kind="struct", body=None, deps=(), ver=(1, 0), ext="dsdl"):
+    return {"full": full, "kind": kind, "body": body if body is not None else BODY[kind], "deps": list(deps), "ver": list(ver), "ext": ext}
 
 
 def ns_specs(rng, thorough):
@@ -67,10 +68,12 @@ def ns_specs(rng, thorough):
             T("app.Alpha"), T("app.Alpha", ver=(1, 1)),
             T("app.Beta", body="uint8 a\napp.Alpha.1.0 x\n@sealed\n", deps=["app.Alpha.1.0"]),
             T("app.Uni", "union"), T("app.Svc", "service"), T("app.Delim", "delimited"),
-            T("app.sub.Gamma"), T("app.deep.er.Leaf")]},
+            T("app.sub.Gamma"), T("app.deep.er.Leaf"), T("app.Legacy", "union", ext="uavcan"), T("app.sub.Old", ext="uavcan")]},
         "lookup": {"root": "use", "lookups": ["lib"], "types": [
             T("use.Use", body="lib.Dep.1.0 d\nuint8[<=lib.Limits.1.0.N] arr\n@sealed\n", deps=["lib.Dep.1.0", "lib.Limits.1.0"]),
             T("use.Local"),
+            T("use.LegacyUse", body="lib.Old.1.0 o\nuint8 z\n@sealed\n", deps=["lib.Old.1.0"], ext="uavcan"),
+            T("lib.Old", body="uint32 w\n@sealed\n", ext="uavcan"),
             T("lib.Dep", body="uint16 v\nlib.Inner.1.0[2] i\n@sealed\n", deps=["lib.Inner.1.0"]),
             T("lib.Inner", body="uint8 w\n@sealed\n"),
             T("lib.Limits", body="uint8 N = 5\n@sealed\n"),
@@ -86,11 +89,12 @@ def ns_specs(rng, thorough):
             f = rng.choice(folders)
             full = ".".join(["rnd"] + f + [names[i]])
             kind = rng.choice(list(BODY))
+            ext = rng.choice(["dsdl", "dsdl", "uavcan"])
             if made and kind == "struct" and rng.random() < 0.6:
                 d = rng.choice(made)
-                types.append(T(full, body=f"uint8 a\n{d} x\n@sealed\n", deps=[d]))
+                types.append(T(full, body=f"uint8 a\n{d} x\n@sealed\n", deps=[d], ext=ext))
             else:
-                types.append(T(full, kind))
+                types.append(T(full, kind, ext=ext))
             made.append(full + ".1.0")
         types.append(T("rnd.Ext", body="ext.Far.1.0 f\n@sealed\n", deps=["ext.Far.1.0"]))
         types += [T("ext.Far", body="ext.Farther.1.0 g\nuint8 z\n@sealed\n", deps=["ext.Farther.1.0"]), T("ext.Farther", "union")]
@@ -100,7 +104,7 @@ def ns_specs(rng, thorough):
 
 def type_file(spec_type, in_dir):
     comps = spec_type["full"].split(".")
-    return pathlib.Path(in_dir, *comps[:-1], f"{comps[-1]}.{spec_type['ver'][0]}.{spec_type['ver'][1]}.dsdl")
+    return pathlib.Path(in_dir, *comps[:-1], f"{comps[-1]}.{spec_type['ver'][0]}.{spec_type['ver'][1]}.{spec_type.get('ext', 'dsdl')}")
 
 
 def write_namespace(spec, in_dir):
@@ -168,12 +172,33 @@ def entries_for(spec, in_dir):
 # ---------------------------------------------------------------------------------------------------------------
 # template directories
 # ---------------------------------------------------------------------------------------------------------------
+# pulled in through symbolic links: a linked file (shared license header), a linked macro file, and files below a linked
+# sub-directory (include, import, and an extends chain whose base sits next to it)
+LINK_SNIPPET = ('{% include "license_header.j2" %}{% import "macros/linked_util.j2" as c08l %}{{ c08l.ltag("l") }}'
+                '{% include "linked/part.j2" %}{% from "linked/m.j2" import lwrap %}{{ lwrap("w") }}{% include "linked/child.j2" %}')
+
+
+def add_linked_templates(dest):
+    """Targets live outside the templates directory (siblings below in/); the directory gets only the links."""
+    dest = pathlib.Path(dest)
+    lf, ld = dest.parent / "tpl_linked_files", dest.parent / "tpl_linked_dir"
+    _write_tree(lf, {"license_header.j2": "shared-license\n", "linked_util.j2": "{% macro ltag(n) %}<l {{ n }}>{% endmacro %}\n"})
+    _write_tree(ld, {"part.j2": "linked-dir-part\n", "m.j2": "{% macro lwrap(n) %}({{ n }}){% endmacro %}\n",
+                     "lbase.j2": "lbase[{% block lb %}{% endblock %}]\n",
+                     "child.j2": "{% extends \"linked/lbase.j2\" %}{% block lb %}linked-child{% endblock %}\n",
+                     "unused.j2": "never used\n"})
+    (dest / "macros").mkdir(exist_ok=True)
+    os.symlink("../tpl_linked_files/license_header.j2", str(dest / "license_header.j2"))
+    os.symlink("../../tpl_linked_files/linked_util.j2", str(dest / "macros" / "linked_util.j2"))
+    os.symlink("../tpl_linked_dir", str(dest / "linked"))
+
+
 TYPE_TEMPLATES = ("StructureType.j2", "UnionType.j2", "DelimitedType.j2", "ServiceType.j2", "Namespace.j2")
 # pulled into every type template of a copied directory: same file name at three depths, a non-.j2 file, an include
 # chain, an import and an extends chain below sub-folders
 COPY_SNIPPET = ('{% include "helper.j2" %}{% include "extra/helper.j2" %}{% include "extra/more/helper.j2" %}'
                 '{% include "notes.txt" %}{% import "macros/util.j2" as c08u %}{{ c08u.tag("c08") }}'
-                '{% include "layouts/child.j2" %}')
+                '{% include "layouts/child.j2" %}' + LINK_SNIPPET)
 
 
 def _write_tree(dest, files):
@@ -203,6 +228,7 @@ def make_tpl_dir(kind, lang, pkg_lang_dir, dest):
                                 "{% block c08body %}{% include \"layouts/parts/body.j2\" %}{% endblock %}\n",
             "layouts/parts/body.j2": "layout-body\n",
         })
+        add_linked_templates(dest)
         for name in TYPE_TEMPLATES:
             f = dest / name
             if not f.exists():
@@ -222,7 +248,7 @@ def make_tpl_dir(kind, lang, pkg_lang_dir, dest):
         _write_tree(dest, {
             "Any.j2": "{% extends \"layouts/child.j2\" %}{% block body %}{% include \"header.j2\" %}"
                       "{% include \"parts/header.j2\" %}{% import \"macros/util.j2\" as u %}{{ u.tag(T.full_name) }}"
-                      "{% from \"macros/more/util.j2\" import wrap %}{{ wrap(\"x\") }}{% include \"data/values.txt\" %}{% endblock %}\n",
+                      "{% from \"macros/more/util.j2\" import wrap %}{{ wrap(\"x\") }}{% include \"data/values.txt\" %}" + LINK_SNIPPET + "{% endblock %}\n",
             "layouts/child.j2": "{% extends \"layouts/base.j2\" %}{% block top %}child-top{% endblock %}\n",
             "layouts/base.j2": "base[{% block top %}{% endblock %}|{% block body %}{% endblock %}]{% include \"parts/deep/header.j2\" %}\n",
             "header.j2": "top-header\n",
@@ -235,6 +261,7 @@ def make_tpl_dir(kind, lang, pkg_lang_dir, dest):
             "macros/header.j2": "{% macro unused() %}{% endmacro %}\n",
             "data/values.txt": "values-text\n",
         })
+        add_linked_templates(dest)
     elif kind == "any":
         dest.mkdir(parents=True)
         (dest / "Any.j2").write_text("any: {{ T.full_name }}\n")
@@ -255,14 +282,27 @@ def make_stpl_dir(lang, pkg_lang_dir, dest):
     (dest / "unused.j2").write_text("never generated\n")
 
 
-def list_dir_files(d):
-    d = pathlib.Path(d)
-    real = pathlib.Path(os.path.realpath(d))
+def list_dir_files(d, with_link_flag=False):
+    """Every file Jinja could open below `d`: [(loader-relative name, resolved path)] — symbolic links to directories are
+    followed (a plain path join opens what is behind them); `with_link_flag` adds whether the file is reachable only
+    through such a link."""
+    real = os.path.realpath(str(d))
     out = []
-    for p in sorted(real.rglob("*")):
-        if p.is_file():
-            out.append((p.relative_to(real).as_posix(), str(p)))
-    return out
+
+    def walk(cur, relparts, via, seen):
+        for name in sorted(os.listdir(cur)):
+            p = os.path.join(cur, name)
+            if os.path.isdir(p):
+                rp = os.path.realpath(p)
+                if rp in seen:
+                    continue
+                walk(p, relparts + [name], via or os.path.islink(p), seen | {rp})
+            elif os.path.isfile(p):
+                out.append(("/".join(relparts + [name]), os.path.realpath(p), via))
+
+    walk(real, [], False, {real})
+    out.sort()
+    return out if with_link_flag else [(n, p) for n, p, _ in out]
 
 
 # ---------------------------------------------------------------------------------------------------------------
@@ -412,8 +452,8 @@ class Sandbox:
         def tfiles(d):
             if d is None:
                 return "!"
-            fs = list_dir_files(d)
-            return ",".join(enc(n) + "~" + enc(p) for n, p in fs) if fs else "@"
+            fs = list_dir_files(d, with_link_flag=True)
+            return ",".join(enc(n) + "~" + enc(p) + ("~L" if via else "") for n, p, via in fs) if fs else "@"
 
         ents = lst(("1" if e["isNs"] else "0") + "~" + lst(map(enc, e["comps"]), "+") + "~" + enc(e["stem"]) + "~" + enc(e["src"]) + "~" +
                    lst(map(enc, e["cands"]), "+") + "~" + lst(map(enc, e["deps"]), "+") for e in self.entries)
@@ -595,11 +635,19 @@ def evaluate(ctx, sb, obs, model, stream):
     if li["rc"] == 0 and cfg["gs"] != "only":
         printed = set(split_list(li["stdout"]))
         must = [e["src"] for e in sb.entries if not e["isNs"]]
+        linked = []
         if sb.tpl is not None:
-            must += [p for n, p in list_dir_files(sb.tpl) if n.endswith(".j2")]
+            for n, p, via in list_dir_files(sb.tpl, with_link_flag=True):
+                if n.endswith(".j2"):
+                    (linked if via else must).append(p)
         missing = sorted(set(must) - printed)
         if missing:
             ctx.fail({"kind": "unlisted-input", "class": "structural"}, "--list-inputs omits a template or a root DSDL file",
+                     {"cfg": ck, "missing": rel(missing)})
+        missing = sorted(set(linked) - printed)
+        if missing:
+            ctx.fail({"kind": "unlisted-input", "class": "template-in-symlinked-dir"},
+                     "--list-inputs omits templates below a symbolically linked sub-directory of --templates (Jinja opens them)",
                      {"cfg": ck, "missing": rel(missing)})
 
 
@@ -663,7 +711,7 @@ def mutations(path):
     except UnicodeDecodeError:
         return []
     out = []
-    if path.endswith(".dsdl"):
+    if path.endswith(DSDL_SUFFIXES):
         out.append(("dsdl-insert-field", "uint8 mutated_field_c08\n" + text))
         m = re.search(r"=\s*(\d+)", text)
         if m:
@@ -686,11 +734,13 @@ def classify_input(relpath, lang):
     parts = pathlib.PurePosixPath(relpath).parts
     j2 = relpath.endswith(".j2")
     if parts[0] == "in":
-        if parts[1] == "tpl":
-            return "custom-template" if j2 else "non-j2-template"
+        if relpath.endswith(DSDL_SUFFIXES):
+            return "root-dsdl" if parts[1] == "ROOT" else "lookup-dsdl"
+        if parts[1] == "tpl_linked_dir":
+            return "template-in-symlinked-dir" if j2 else "non-j2-template"
         if parts[1] == "stpl":
             return "support-templates-dir"
-        return "root-dsdl" if parts[1] == "ROOT" else "lookup-dsdl"
+        return "custom-template" if j2 else "non-j2-template"
     if "templates" in parts:
         return "builtin-template" if j2 else "non-j2-template"
     return "support-resource"
@@ -853,7 +903,7 @@ class MutationSearch:
                              "a file whose content changes the generated output is not printed by --list-inputs",
                              {"cfg": ck, "file": c, "mutation": name, "outputs_changed": changed})
                 # tie of the model's `reads`: what the search finds influential must be something the model says is read
-                if inf["reads"] is not None and c not in inf["reads"] and not (cfg.get("tpl", "none") != "none" and cls == "non-j2-template"):
+                if inf["reads"] is not None and c not in inf["reads"] and not (cfg.get("tpl", "none") != "none" and cls in ("non-j2-template", "template-in-symlinked-dir")):
                     ctx.traces += 1
                     ctx.disagree("mutation:reads", {"cfg": ck, "file": c}, "not in reads", f"influential ({name}: {changed})")
                 else:
